@@ -244,6 +244,10 @@ func (g *ValGen) Gen(typ reflect.Type, schema *specgen.Schema, depth int) reflec
 	switch {
 	case typ == timeType:
 		v.Set(reflect.ValueOf(g.Time()))
+		// a date-time with a Go layout of its own holds what that layout can express
+		if rs != nil && rs.TimeFormat != "" {
+			FitTimesToLayout(v, rs.TimeFormat)
+		}
 		return v
 	case typ == rawMessageType:
 		if !noNull && rapid.IntRange(0, 5).Draw(t, g.label("rawnil")) == 0 {
